@@ -16,7 +16,7 @@ REQUIRED = (["vsop_pos", "geometric_vsop_pos", "apparent_vsop_pos", "orbital_ele
             + ["Earth.geometric_heliocentric_position_j2000"])
 THEOREMS = ["C07_series_evaluator", "C07_horner_is_direct_sum", "C07_vsop_longitude_range",
             "C07_fk5_correction", "C07_fk5_size", "C07_aberration", "C07_corrected_longitude_range",
-            "C07_table_constants", "C07_earth_j2000_rate"]
+            "C07_table_constants", "C07_earth_j2000_rate", "C07_orbital_elements"]
 PROOF_TIMEOUT = {"quick": 2000, "thorough": 3000}
 EXHAUSTIVE = False
 MANIFEST = {
@@ -41,9 +41,10 @@ CLAUSES = {
     "longitude of vsop_pos in [0,360)": "proved [ideal]; binary64: unproved (searched)",
     "longitude of geometric/apparent variants in [0,360) after FK5 / aberration": "proved [ideal, abstract vsop_pos result]; binary64: unproved (searched, incl. epochs within 1 arcsec of the 0/360 seam)",
     "FK5 correction: dlon = -0.09033'' + 0.03916''(cos l' + sin l') tan b, dlat = 0.03916''(cos l' - sin l'); size bounds": "proved [ideal]",
-    "aberration -20.4898''/r": "proved [ideal]",
+    "aberration -20.4898''/r (r >= 0.01 AU), nutation added before it": "proved [ideal, abstract geometric_vsop_pos / nutation_longitude result]",
     "series mean-longitude rate = element table rate to 1e-6 (8 planets)": "proved [ideal arithmetic on the extracted tables]",
     "Kepler's third law n^2 a^3 = k^2 to 0.1 % (1 % Saturn-Neptune)": "proved [ideal arithmetic on the extracted tables]",
+    "orbital_elements = cubic polynomials of the table rows in T, argument of perihelion = perihelion - node": "proved [ideal, symbolic tables; the module constant JDE2000 = 2451545 is a hypothesis in quick, discharged by evaluation in thorough]",
     "|latitude| <= inclination + 0.05 deg": "unproved (searched): global bound of a 1000-term trigonometric series over 6000 years",
     "radius within perihelion/aphelion distance of the mean orbit, 1 % slack": "unproved (searched): same reason",
     "longitude only increases, daily rate within 3 % of the Keplerian extremes": "unproved (searched): same reason",
@@ -54,7 +55,11 @@ CLAUSES = {
 
 
 def proof_files(tier):
-    return ["C07_defs.v", "C07_lib.v", "C07_angle.v", "C07_series.v", "C07_corr.v", "C07_const.v", "C07.v"]
+    fs = ["C07_defs.v", "C07_lib.v", "C07_angle.v", "C07_sec_a.v", "C07_sec_b.v", "C07_sec_c.v", "C07_sec.v",
+          "C07_series.v", "C07_corr.v", "C07_const.v", "C07_elem.v"]
+    if tier == "thorough":
+        fs.append("C07_jde2000.v")      # evaluates Epoch(2000, 1, 1.5) in real arithmetic: minutes
+    return fs + ["C07.v"]
 
 
 # ------------------------------------------------------------------ numbers of the property text
@@ -88,10 +93,13 @@ def cases(rng, tier):
     cs = []
     for p in PLANETS:
         for _ in range(n):
-            j = [round(jde_of_year(rng.uniform(-2000, 4000)), 3) for _ in range(3)]
-            cs.append("%s.geometric_heliocentric_position(Epoch(%r))" % (p, j[0]))
-            cs.append("%s.geometric_heliocentric_position(Epoch(%r), tofk5=False)" % (p, j[1]))
-            cs.append("%s.apparent_heliocentric_position(Epoch(%r))" % (p, j[2]))
+            # thousands of traced cos values per case: two per planet (quick)
+            j = [round(jde_of_year(rng.uniform(-2000, 4000)), 3) for _ in range(2)]
+            if rng.random() < 0.5:
+                cs.append("%s.geometric_heliocentric_position(Epoch(%r))" % (p, j[0]))
+            else:
+                cs.append("%s.geometric_heliocentric_position(Epoch(%r), tofk5=False)" % (p, j[0]))
+            cs.append("%s.apparent_heliocentric_position(Epoch(%r))" % (p, j[1]))
         for _ in range(4 * n):
             j = round(jde_of_year(rng.uniform(-2000, 4000)), 3)
             cs.append("%s.orbital_elements_mean_equinox(Epoch(%r))" % (p, j))
